@@ -6,6 +6,12 @@ how it is spelled (local names, temporaries, formatting, statement order).
 This is value numbering on the syntax tree; nothing is executed.
 """
 
+try:
+    import json as _json, os as _os
+    KNOWN_CONSTS = set(_json.load(open(_os.path.join(_os.path.dirname(_os.path.abspath(__file__)), "known_consts.json"))))
+except Exception:
+    KNOWN_CONSTS = None
+
 # bodies of helper functions whose calls could not be expanded in the HIR (a `return` inside a loop): path -> fn hir.
 # Dependence analyses follow calls into them (rules/inline.py fills it when the facts are loaded).
 HELPER_HIR = {}
@@ -342,6 +348,11 @@ class Sym:
                 if dk.startswith("Ctor"):
                     return ("variant", to.get("ctor_of") or to["path"])
                 if dk.startswith("Const") or dk.startswith("AssocConst"):
+                    # a constant that does not exist on the reference tree (a literal that a refactor gave a name) is its value
+                    if self.facts is not None and KNOWN_CONSTS is not None and to["path"] not in KNOWN_CONSTS:
+                        r_ = resolve_consts(("const", to["path"]), self.facts)
+                        if r_[0] == "lit":
+                            return r_
                     return ("const", to["path"])
                 return ("def", to["path"])
             return ("path", str(to))
